@@ -741,6 +741,16 @@ func linearOf(info *types.Info, body ast.Node, e ast.Expr) (map[string]int, bool
 				return walk(x.X, sign) && walk(x.Y, sign)
 			case token.SUB:
 				return walk(x.X, sign) && walk(x.Y, -sign)
+			case token.MUL:
+				// constant * expr
+				for _, pair := range [][2]ast.Expr{{x.X, x.Y}, {x.Y, x.X}} {
+					if tv, ok := info.Types[pair[0]]; ok && tv.Value != nil {
+						var k int
+						if _, err := sscanInt(tv.Value.String(), &k); err == nil {
+							return walk(pair[1], sign*k)
+						}
+					}
+				}
 			}
 			return false
 		case *ast.Ident:
